@@ -43,7 +43,9 @@ func init() {
 			"source type (uint64->int64, int64->uint64, float->integer) and whose result is compared with the other operand is exact under the dominating branch conditions - lower and upper side are separate " +
 			"obligations; besides comparisons against constants, a dominating comparison against another value with a known interval is used (float64(i) > f false => f >= -2^63); (X2) every numeric operand of a " +
 			"mixed-kind kernel reaches a comparison against a non-constant value, or a comparator call, through value-preserving steps only: an operand that is only ever compared as its float64 rounding (beyond 2^53) " +
-			"or its integer truncation makes two different numbers indistinguishable. A violated X1/X2 instance makes the number order intransitive (5 > 2^64-1 > 7 > 5).",
+			"or its integer truncation makes two different numbers indistinguishable. A violated X1/X2 instance makes the number order intransitive (5 > 2^64-1 > 7 > 5). " +
+			"Class-precedence clause (J1): CompareJSON dispatches on the left operand's dynamic type to one kernel per JSON value class and each kernel switches on the right operand's dynamic type; the constant " +
+			"results of the cross-class arms form a precedence table, read from the type switches, which must be antisymmetric (kernel(X) on class Y and kernel(Y) on class X return opposite non-zero constants) and acyclic.",
 		NotCovered: "transitivity/antisymmetry over non-NULL values beyond the exact-conversion clause (that the guards of a kernel return the right sign, that a strict comparison of rounded values is used only in its sound direction), coherence of Compare with Convert (Type.Compare converts both operands with the type's own Convert and drops the range flag), collation order (C29), float NaN ordering",
 		Technique:  "SSA dominance (sibling nil-guard engine) + abstract interpretation of the NULL helper over a 4-point domain + interval engine over dominating branch conditions for the conversion clause",
 		Run: func(c *Ctx) {
@@ -55,6 +57,8 @@ func init() {
 				ValueIface: "ValueType", ValueMethod: "CompareValue", ValueHelper: "CompareNullValues", NilPredRel: "sql", NilPred: "Value.IsNull",
 				Floors: [3]int{74, 8, 37}})
 			runC26X(c, c26XConfig{Rels: rels, Floors: [2]int{6, 8}})
+			c.Rule("C26-J1", "class-precedence table of the dispatched JSON comparison (CompareJSON -> one kernel per value class, each switching on the right operand's dynamic type): for every pair of classes the two kernels return opposite non-zero constants, and the precedence relation is acyclic", 11)
+			runC26J(c, c26jConfig{Rel: "sql/types", Dispatcher: "CompareJSON"})
 		},
 		Fixture: func(c *Ctx, fx *Prog) {
 			expectFixture(c, fx, "c26: unguarded Compare, wrong null return, wrong helper sign/flag, raw subtraction",
@@ -80,8 +84,11 @@ func init() {
 					"C26-X2:BadTruncated/operand f64",
 				},
 				func(fc *Ctx) { runC26X(fc, c26XConfig{Rels: []string{"testdata/c26/numcmp"}}) })
+			expectFixture(c, fx, "c26j: the string kernel ranks strings above objects while the object kernel ranks objects above strings",
+				[]string{"C26-J1:cmpObj vs cmpStr"},
+				func(fc *Ctx) { runC26J(fc, c26jConfig{Rel: "testdata/c26/classes", Dispatcher: "Compare"}) })
 		},
-		FixturePkgs: []string{"./testdata/c26/cmp", "./testdata/c26/numcmp"},
+		FixturePkgs: []string{"./testdata/c26/cmp", "./testdata/c26/numcmp", "./testdata/c26/classes"},
 	})
 }
 
